@@ -22,7 +22,15 @@ def parseMode (s : String) : Option (Mode × Nat) :=
 def parseResp (script : String) : Option Resp :=
   match script.splitOn "=" with
   | [verb, h] =>
-    if verb == "ok" || verb == "chunk" then (bytesOfHex (if h.isEmpty then "-" else h)).map Resp.payload
+    let body := bytesOfHex (if h.isEmpty then "-" else h)
+    if verb == "ok" || verb == "chunk" then body.map Resp.payload
+    -- `oks…`: the SIZE header is wrong, missing or garbage; it is informational, what counts are the bytes delivered
+    else if verb.startsWith "oks" then body.map Resp.payload
+    -- `okl<N>`: PAYLOAD-LENGTH announces N bytes: the client reads exactly N (a prefix) or the stream ends early
+    else if verb.startsWith "okl" then
+      match (verb.drop 3).toString.toNat?, body with
+      | some n, some b => if n ≤ b.length then some (.payload (b.take n)) else some .fail
+      | _, _ => none
     else if verb == "trunc" || verb == "nostatus" then some .fail
     else none
   | [verb] =>
